@@ -194,6 +194,15 @@ func TestVF_C14(t *testing.T) {
 			return
 		}
 		keys := c.kssKeys()
+		if rapid.Bool().Draw(rt, "otherKeyInstances") {
+			// the key set of the keyshare protocol is assembled separately from the credentials: the same
+			// keys (same values, same issuer and counter), but other objects
+			for id, k := range keys {
+				cp := *k
+				keys[id] = &cp
+			}
+			rec.Class("keyshare-key-set-holds-other-instances-of-the-keys", 1)
+		}
 		var run *kssRun
 		var pl ProofList
 		psig := vfh.Guard(func() {
